@@ -28,7 +28,8 @@ def gen_corr_spec(rng):
     pad = [rng.choice([0, 0, 1, 2]), rng.choice([0, 0, 1])]
     inner = max(1, T - pad[0] - pad[1])
     return {"T": inner, "N": N, "kind": kind, "none": sorted(rng.sample(range(inner), min(nnone, inner - 1))), "pad": pad,
-            "seed": rng.getrandbits(32), "range": rng.choice(["pos", "mixed", "mixed", "unit"]), "sym": rng.random() < 0.3}
+            "seed": rng.getrandbits(32), "range": rng.choice(["pos", "mixed", "mixed", "unit"]),
+            "sym": rng.choice([False, False, False, True, "first", "last", "not_first"])}     # which timeslices hold symmetric matrices
 
 
 def gen_plan(rng, tier):
@@ -102,10 +103,13 @@ def build_corr(spec):
     rnd = random.Random(kernel.H("corr", spec["seed"]))
     N, T = spec["N"], spec["T"]
     content = []
+    defined = [t for t in range(T) if t not in spec["none"]]
     for t in range(T):
         if t in spec["none"]:
             content.append(None)
             continue
+        symt = spec["sym"] is True or (spec["sym"] == "first" and defined and t == defined[0]) or (spec["sym"] == "last" and defined and t == defined[-1]) \
+            or (spec["sym"] == "not_first" and defined and t != defined[0])
 
         def ent():
             if spec["kind"] == "complex":
@@ -117,7 +121,7 @@ def build_corr(spec):
             a = np.empty((N, N), dtype=object)
             for i in range(N):
                 for j in range(N):
-                    if spec["sym"] and j < i:
+                    if symt and j < i:
                         a[i, j] = a[j, i]
                     else:
                         a[i, j] = ent()
@@ -239,13 +243,13 @@ def model_bin(f, A, NA, B, order):
     return out
 
 
-def entry_diff(e, g, tol=1e-12):
+def entry_diff(e, g, tol=1e-12, atol=0.0):
     import pyerrors as pe
     if isinstance(e, pe.CObs) or isinstance(g, pe.CObs):
         if not (isinstance(e, pe.CObs) and isinstance(g, pe.CObs)):
             # a CObs with vanishing imaginary part is not the same object kind as an Obs
             return "kind %s vs %s" % (type(e).__name__, type(g).__name__)
-        return entry_diff(e.real, g.real, tol) or entry_diff(e.imag, g.imag, tol)
+        return entry_diff(e.real, g.real, tol, atol) or entry_diff(e.imag, g.imag, tol, atol)
     if isinstance(e, pe.Obs) != isinstance(g, pe.Obs):
         if isinstance(e, pe.Obs) and not e.names and not isinstance(g, pe.Obs):
             return None
@@ -257,7 +261,7 @@ def entry_diff(e, g, tol=1e-12):
         return "names %r vs %r" % (e.names, g.names)
     fin = [float(np.max(np.abs(d[np.isfinite(d)]))) for d in e.deltas.values() if np.any(np.isfinite(d))]
     sc = (abs(e.value) if np.isfinite(e.value) else 0.0) + 1e-300 + max(fin + [0.0])
-    if not (e.value == g.value or (np.isnan(e.value) and np.isnan(g.value)) or abs(e.value - g.value) <= tol * sc):
+    if not (e.value == g.value or (np.isnan(e.value) and np.isnan(g.value)) or abs(e.value - g.value) <= tol * sc + atol):
         return "value %.17g vs %.17g" % (e.value, g.value)
     for n in e.deltas:
         if list(e.idl[n]) != list(g.idl.get(n, [])):
@@ -265,7 +269,7 @@ def entry_diff(e, g, tol=1e-12):
         x, y = np.asarray(e.deltas[n]), np.asarray(g.deltas[n])
         same = (x == y) | (np.isnan(x) & np.isnan(y))
         with np.errstate(invalid="ignore"):
-            close = np.abs(x - y) <= tol * sc
+            close = np.abs(x - y) <= tol * sc + atol
         if not np.all(same | close):
             return "deltas[%s] differ" % n
     if e.reweighted != g.reweighted:
@@ -273,7 +277,7 @@ def entry_diff(e, g, tol=1e-12):
     return None
 
 
-def content_diff(exp, got_corr, N, ctx):
+def content_diff(exp, got_corr, N, ctx, atol=0.0):
     """exp: list of None|array; got: Corr"""
     if got_corr.T != len(exp):
         return ("shape", "T=%d, expected %d" % (got_corr.T, len(exp)))
@@ -290,7 +294,7 @@ def content_diff(exp, got_corr, N, ctx):
             continue
         ea, ga = np.asarray(e, dtype=object).ravel(), np.asarray(g, dtype=object).ravel()
         for k in range(len(ea)):
-            d = entry_diff(ea[k], ga[k])
+            d = entry_diff(ea[k], ga[k], atol=atol)
             ctx.compared += 1
             if d:
                 return ("entry", "timeslice %d entry %d: %s" % (t, k, d))
@@ -394,7 +398,21 @@ def pathological(exp):
     return False
 
 
-def judge(ctx, label, disc, call, model, N, twice=False, accept_exc_if_model_raises=True, index_transform=False):
+def opscale(C, factor=1.0):
+    """magnitude of the terms an operation sums (cancellations make the result small but not its rounding error)"""
+    import pyerrors as pe
+    m = 0.0
+    for c in C.content:
+        if c is None:
+            continue
+        for e in np.asarray(c, dtype=object).ravel():
+            for p in ([e.real, e.imag] if isinstance(e, pe.CObs) else [e]):
+                if isinstance(p, pe.Obs) and np.isfinite(p.value):
+                    m = max(m, abs(p.value) + max([float(np.max(np.abs(d))) for d in p.deltas.values() if len(d)] + [0.0]))
+    return 1e-12 * m * factor
+
+
+def judge(ctx, label, disc, call, model, N, twice=False, accept_exc_if_model_raises=True, index_transform=False, atol=0.0):
     """call() -> Corr (implementation); model() -> content list.  Returns (status, result, expected, N) or None."""
     import pyerrors as pe
     try:
@@ -437,14 +455,14 @@ def judge(ctx, label, disc, call, model, N, twice=False, accept_exc_if_model_rai
             if a.shape not in ((1,), (N, N)) or not all(isinstance(e, (pe.Obs, pe.CObs, int, float, np.floating, np.integer)) for e in a.ravel()):
                 ctx.violation("c14.shape", label, disc, "timeslice %d of the result has shape %r holding %s" % (t, a.shape, sorted(set(type(e).__name__ for e in a.ravel()))))
                 return ("diff", None, exp, N)
-    d = content_diff(exp, res, N, ctx)
+    d = content_diff(exp, res, N, ctx, atol)
     if d:
         ctx.violation("c14." + d[0], label, disc, d[1])
         return ("diff", res, exp, N)
     if twice:
         try:
             res2 = call()
-            d2 = content_diff([c for c in res.content], res2, N, ctx)
+            d2 = content_diff([c for c in res.content], res2, N, ctx, atol)
         except Exception as e:
             d2 = ("entry", "second invocation raised %s" % type(e).__name__)
         if d2:
@@ -554,7 +572,7 @@ def run_op(ctx, op, C, state, pe):
     if kind == "trace":
         if N == 1:
             raise Skip()
-        return judge(ctx, "trace", "-", lambda: C.trace(), lambda: [None if undefined(a, N) else np.asarray([sum_entries([a[k, k] for k in range(N)])]) for a in A], 1, tw, index_transform=True)
+        return judge(ctx, "trace", "-", lambda: C.trace(), lambda: [None if undefined(a, N) else np.asarray([sum_entries([a[k, k] for k in range(N)])]) for a in A], 1, tw, index_transform=True, atol=opscale(C, N))
     if kind == "matrix_symmetric":
         if N == 1 or content_kind_of(C, pe) == "cplx":
             raise Skip()
@@ -602,13 +620,14 @@ def run_op(ctx, op, C, state, pe):
                     term = (l_[x] * r_[y]) * a[x, y]
                     tot = term if tot is None else tot + term
             return np.asarray([tot])
+        pa = opscale(C, N * N * 16.0)
         if mode == "default":
             e0 = np.asarray([1.0] + [0.0] * (N - 1))
-            return judge(ctx, "projected", "default", lambda: C.projected(normalize=norm), lambda: [None if undefined(a, N) else proj(a, e0, e0) for a in A], 1, tw, index_transform=True)
+            return judge(ctx, "projected", "default", lambda: C.projected(normalize=norm), lambda: [None if undefined(a, N) else proj(a, e0, e0) for a in A], 1, tw, index_transform=True, atol=pa)
         if mode == "one":
-            return judge(ctx, "projected", "one", lambda: C.projected(vl, normalize=norm), lambda: [None if undefined(a, N) else proj(a, nrm(vl), nrm(vl)) for a in A], 1, tw, index_transform=True)
+            return judge(ctx, "projected", "one", lambda: C.projected(vl, normalize=norm), lambda: [None if undefined(a, N) else proj(a, nrm(vl), nrm(vl)) for a in A], 1, tw, index_transform=True, atol=pa)
         if mode == "two":
-            return judge(ctx, "projected", "two", lambda: C.projected(vl, vr, normalize=norm), lambda: [None if undefined(a, N) else proj(a, nrm(vl), nrm(vr)) for a in A], 1, tw, index_transform=True)
+            return judge(ctx, "projected", "two", lambda: C.projected(vl, vr, normalize=norm), lambda: [None if undefined(a, N) else proj(a, nrm(vl), nrm(vr)) for a in A], 1, tw, index_transform=True, atol=pa)
         # per-timeslice lists of vectors: argument objects live in the pool and are reused
         key = (N, T, op["v"] % 3)
         found = [vl_ for vl_ in state["vlists"] if len(vl_) == T and all(v is None or v.shape == (N,) for v in vl_)]
@@ -622,9 +641,9 @@ def run_op(ctx, op, C, state, pe):
         len_ = "lenient" if (norm and any(v is None for v in lst)) else True
         if mode == "list":
             return judge(ctx, "projected", "list", lambda: C.projected(lst, normalize=norm),
-                         lambda: [None if (undefined(A[t], N) or snap[t] is None) else proj(A[t], nrm(snap[t]), nrm(snap[t])) for t in range(T)], 1, tw, index_transform=len_)
+                         lambda: [None if (undefined(A[t], N) or snap[t] is None) else proj(A[t], nrm(snap[t]), nrm(snap[t])) for t in range(T)], 1, tw, index_transform=len_, atol=pa)
         return judge(ctx, "projected", "list_one", lambda: C.projected(lst, vr, normalize=norm),
-                     lambda: [None if (undefined(A[t], N) or snap[t] is None) else proj(A[t], nrm(snap[t]), nrm(vr)) for t in range(T)], 1, tw, index_transform=len_)
+                     lambda: [None if (undefined(A[t], N) or snap[t] is None) else proj(A[t], nrm(snap[t]), nrm(vr)) for t in range(T)], 1, tw, index_transform=len_, atol=pa)
     if kind == "matmul":
         if N == 1 and op["partner"] == "matrix":
             ms = [m for m in state["matrices"] if m.shape == (1, 1)]
@@ -651,12 +670,12 @@ def run_op(ctx, op, C, state, pe):
                 raise Skip()
             M = ms[op["m"] % len(ms)]
             if order == "LR":
-                return judge(ctx, "matmul", "matrix/LR", lambda: C @ M, lambda: [None if undefined(a, N) else mm(a, M) for a in A], N, tw)
-            return judge(ctx, "matmul", "matrix/RL", lambda: M @ C, lambda: [None if undefined(a, N) else mm(M, a) for a in A], N, tw)
+                return judge(ctx, "matmul", "matrix/LR", lambda: C @ M, lambda: [None if undefined(a, N) else mm(a, M) for a in A], N, tw, atol=opscale(C, N * 4.0))
+            return judge(ctx, "matmul", "matrix/RL", lambda: M @ C, lambda: [None if undefined(a, N) else mm(M, a) for a in A], N, tw, atol=opscale(C, N * 4.0))
         P = state["corrs"][op["j"] % len(state["corrs"])]
         if P.N != N or P.T != T or N == 1 or content_kind_of(P, pe) == "cplx":
             raise Skip()
-        return judge(ctx, "matmul", "corr", lambda: C @ P, lambda: [None if (undefined(A[t], N) or undefined(P.content[t], N)) else mm(A[t], P.content[t]) for t in range(T)], N, tw)
+        return judge(ctx, "matmul", "corr", lambda: C @ P, lambda: [None if (undefined(A[t], N) or undefined(P.content[t], N)) else mm(A[t], P.content[t]) for t in range(T)], N, tw, atol=opscale(C, N) * max(1.0, opscale(P) / 1e-12))
     if kind in ("correlate", "reweight"):
         if N != 1 or content_kind_of(C, pe) == "cplx":
             raise Skip()
